@@ -63,7 +63,7 @@ class ChannelItem(EFLRItem, DimensionedItem):
         self._cast_dtype: Union[numpy_dtype_type, None] = None
 
         #: which of: 'dimension', 'element_limit', 'cast_dtype' were derived from the data at the (last) write
-        self._derived_from_data: set[str] = set()
+        self._derived_from_data: dict[str, int] = {}
 
         self.long_name = EFLROrTextAttribute('long_name', object_class=LongNameSet)
         self.properties = PropertiesAttribute('properties')
@@ -104,7 +104,7 @@ class ChannelItem(EFLRItem, DimensionedItem):
         """Set or remove channel cast dtype."""
 
         self._set_cast_dtype(dt)
-        self._derived_from_data.discard('cast_dtype')  # (only once the new value has been accepted)
+        self._derived_from_data.pop('cast_dtype', None)  # (only once the new value has been accepted)
 
     def _set_cast_dtype(self, dt: Union[numpy_dtype_type, None]) -> None:
         """Check that the provided cast dtype is acceptable and set it in the Channel."""
@@ -119,10 +119,11 @@ class ChannelItem(EFLRItem, DimensionedItem):
         """Determine and dimension and representation code attributes of the ChannelItem based on the source data."""
 
         # what was derived from the data at a previous write describes that data, not necessarily the current one
-        for derived in self._derived_from_data:
+        # (unless the user has assigned the attribute since then: that value is theirs)
+        for derived, n_assignments in self._derived_from_data.items():
             if derived == 'cast_dtype':
                 self._set_cast_dtype(None)
-            else:
+            elif getattr(self, derived)._assignments['value'] == n_assignments:
                 getattr(self, derived)._value = None
         self._derived_from_data.clear()
 
@@ -141,7 +142,7 @@ class ChannelItem(EFLRItem, DimensionedItem):
                                    f"does not match the dimension from data: {dim}")
             logger.debug(f"Setting dimension of {self} to {dim}")
             self.dimension.value = dim
-            self._derived_from_data.add('dimension')
+            self._derived_from_data['dimension'] = self.dimension._assignments['value']
 
         if self.element_limit.value != dim:
             if self.element_limit.value:  # was specified and is not exactly equal to dim
@@ -153,7 +154,7 @@ class ChannelItem(EFLRItem, DimensionedItem):
                 # only set the element limit if it was None before
                 logger.debug(f"Setting element limit of {self} to {dim}")
                 self.element_limit.value = dim
-                self._derived_from_data.add('element_limit')
+                self._derived_from_data['element_limit'] = self.element_limit._assignments['value']
 
     @staticmethod
     def _compare_element_limit_vs_dimension(el: list[int], dim: list[int]) -> bool:
@@ -189,7 +190,7 @@ class ChannelItem(EFLRItem, DimensionedItem):
             return
 
         self._set_cast_dtype(dt)
-        self._derived_from_data.add('cast_dtype')
+        self._derived_from_data['cast_dtype'] = 0
 
     def _run_checks_and_set_defaults(self) -> None:
         """Set up default values of ChannelItem parameters if not explicitly set previously."""
